@@ -18,12 +18,12 @@ func init() {
 			"constant true, never derived from err == nil; (record-matches-key) the stored EnvelopeKeyRecord carries the ciphertext, Created and ids of exactly that key and its parent; " +
 			"(nothing-cached-on-error) cache writes are dominated by the loader's err == nil; (error-means-no-record) every error on the encrypt/key-loading path is tested and its " +
 			"non-nil edge reaches only non-nil error returns (frozen, named exceptions), and EncryptPayload returns a record only where every dominating error was nil. " +
-			"Whether the metastore really holds the rows at that instant is the Metastore implementation's insert discipline (C13), not decided here.",
+			"(shared) the four repo metastores are insert-only with a truthful Store result (C13.insert-only / C13.store-result), and key references handed out by the caches are released exactly once (C09.handout-release: a double release destroys a cached system key, after which no operation succeeds although the faults have stopped). Whether a real database holds the rows at that instant is not decided here.",
 		NotDecided:  []string{"that the metastore holds the rows at the instant of return (C13 covers the insert discipline)", "recovery 'once faults stop'", "process crash points", "error-after-write faults inside a Metastore implementation"},
 		Assumptions: []string{"Metastore.Store returns true only if the row was inserted (checked for the four repo metastores by C13.store-result)", "design-intended error drops are listed by symbol: tryStore, loadLatestOrCreateIntermediateKey→createIntermediateKey fall-backs, getValidIntermediateKey"},
 		Tech:        "static analysis: guarded-by-condition + backward value slice + error-discipline (every err tested, non-nil edge reaches non-nil returns) on SSA",
 		NeedU1:      true,
-		Rules:       []func(*Ctx){ruleC02FreshKeyOnlyIfStored, ruleC02SuccessIsStoreBool, ruleC02RecordMatchesKey, ruleC02NothingCachedOnError, ruleC02ErrorMeansNoRecord},
+		Rules:       []func(*Ctx){ruleC02FreshKeyOnlyIfStored, ruleC02SuccessIsStoreBool, ruleC02RecordMatchesKey, ruleC02NothingCachedOnError, ruleC02ErrorMeansNoRecord, ruleC13InsertOnly, ruleC13StoreResult, ruleC09HandoutRelease},
 	})
 }
 
